@@ -6,6 +6,16 @@ props = [json.loads(l) for l in open(os.path.join(root, "properties.jsonl"))]
 
 # id -> (category, text, design_ref, note, technique)
 claimed = {
+ "C08": ("exploration",
+         "Property-based test of the CORS origin boundary: configurations and Origin strings are generated as near misses of allowed entries (case variants, proper prefixes/suffixes, superstrings, scheme swaps, null); allowed(origin) is restated from the statement; a not-allowed or absent origin must leave the complete response identical to a twin container without the filter, an allowed one gets the origin echoed verbatim once and credentials only if configured.",
+         "DESIGN.md §5 C08",
+         "ASCII origins; the domain predicate is modelled case-insensitive. Twin-container comparison trusts the recording harness.",
+         "property-based testing (rapid): near-miss generation, reference predicate, twin container"),
+ "C09": ("exploration",
+         "Property-based test of preflight handling on sequences: 1-10 requests (70% preflights) to different URLs run on one filter value; each preflight is judged against its own URL (allowed methods configured or measured by probing a twin), must be answered by the filter alone and granted iff method and every requested header are allowed; other requests must equal the twin plus each actual-request header exactly once.",
+         "DESIGN.md §5 C09",
+         "Upper-case methods only; route tables in the common fragment. Routable sets are observed by probing.",
+         "property-based testing (rapid): request sequences, reference decision table, probe-derived method sets"),
  "C05": ("exploration",
          "Property-based test with a reference ranking: Accept headers are generated from a grammar (ranges, q-values with ties, parameters before/after q, optional spaces), the expected Content-Type is computed from the structured header by the rule of the statement, and each request is repeated 12 times as rendered and with whitespace stripped; every response must be 200 with exactly the expected type and a body that decodes with the codec it names. Three registered-writer configurations run as separate processes.",
          "DESIGN.md §5 C05",
